@@ -237,7 +237,16 @@ def norm_index(i, n, run=None):
     return z3.If(i < 0, i + n, i)
 
 
+def _unmodelled(run, base, node, what):
+    if isinstance(base, Conc) and isinstance(base.obj, tuple) and base.obj[0] == "unmodelled_global":
+        from .interp import PathEnd
+        run.oblige(f"frame#{base.obj[1]}", z3.BoolVal(False), kind="frame",
+                   note=f"{run.x.c.fq} {what} the module-level object `{base.obj[1]}` at line {getattr(node, 'lineno', '?')}, which is outside the footprint of its contract")
+        raise PathEnd()
+
+
 def getitem(run, base, key, node):
+    _unmodelled(run, base, node, "reads")
     if isinstance(base, VTuple):
         if isinstance(key, Val) and key.ty is TInt:
             k = z3.simplify(key.t)
@@ -356,6 +365,7 @@ def getslice(run, base, lo, hi, node):
 
 
 def setitem(run, cont, key, v, node):
+    _unmodelled(run, cont, node, "writes")
     cont = unopt(run, cont, node)
     ty = cont.ty
     if isinstance(ty, TDict):
@@ -615,6 +625,7 @@ def eq_terms(run, a, b):
 
 
 def contains(run, item, cont, node):
+    _unmodelled(run, cont, node, "reads")
     if isinstance(cont, VTuple):
         if not cont.items:
             return z3.BoolVal(False)
